@@ -235,6 +235,10 @@ pub struct VerModel {
     /// seq ranges received while partial
     pub ranges: RangeInclusiveSet<u64>,
     pub last_seq: u64,
+    /// every last_seq announced by a delivered chunk of this version: a relay whose tail
+    /// rows were overwritten announces a smaller one than the origin; which one the node
+    /// goes by is not constrained by the properties
+    pub last_seqs: std::collections::BTreeSet<u64>,
     /// changes delivered while partial, by seq (first delivery wins)
     pub changes: BTreeMap<u64, Change>,
     /// a chunk with a different last_seq was delivered later (relay after overwrite)
@@ -252,10 +256,32 @@ impl VerModel {
         self.ranges.gaps(&(0..=self.last_seq)).next().is_none()
     }
     pub fn gaps(&self) -> Vec<(u64, u64)> {
+        self.gaps_for(self.last_seq)
+    }
+    pub fn gaps_for(&self, last_seq: u64) -> Vec<(u64, u64)> {
         self.ranges
-            .gaps(&(0..=self.last_seq))
+            .gaps(&(0..=last_seq))
             .map(|r| (*r.start(), *r.end()))
             .collect()
+    }
+    fn all_last_seqs(&self) -> Vec<u64> {
+        let mut v: Vec<u64> = self.last_seqs.iter().copied().collect();
+        if v.is_empty() {
+            v.push(self.last_seq);
+        }
+        v
+    }
+    /// covered whichever announced last_seq the node goes by
+    pub fn covered_all(&self) -> bool {
+        !self.ranges.is_empty() && self.all_last_seqs().iter().all(|l| self.gaps_for(*l).is_empty())
+    }
+    /// covered for at least one announced last_seq
+    pub fn covered_some(&self) -> bool {
+        !self.ranges.is_empty() && self.all_last_seqs().iter().any(|l| self.gaps_for(*l).is_empty())
+    }
+    /// the missing-range lists a conforming node may advertise
+    pub fn acceptable_gaps(&self) -> Vec<Vec<(u64, u64)>> {
+        self.all_last_seqs().iter().map(|l| self.gaps_for(*l)).collect()
     }
 }
 
@@ -294,6 +320,7 @@ impl ActorModel {
                         state,
                         ranges: RangeInclusiveSet::new(),
                         last_seq: 0,
+                        last_seqs: Default::default(),
                         changes: BTreeMap::new(),
                         last_seq_conflict: false,
                         stale_rows: false,
